@@ -539,49 +539,60 @@ theorem parseMembers_spec (ms : List (Info × StrFacts × Int))
         have : o + j = o + t.bits + (j - t.bits) := by omega
         rw [this, he2]
 
-theorem bitLenFrom_spec (v : Nat) (h4 : 4 ≤ v) :
+theorem bitLenFrom_spec (v : Nat) (h1 : 1 ≤ v) :
     ∀ i, (∀ j, i < j → v.testBit j = false) → bitLenFrom v i = v.log2 + 1 := by
   have hv0 : v ≠ 0 := by omega
-  have small : ∀ i, i ≤ 1 → (∀ j, i < j → v.testBit j = false) → False := by
-    intro i hi h
-    have : v < 2 ^ 2 := Nat.lt_pow_two_of_testBit v (fun j hj => h j (by omega))
-    omega
   intro i
   induction i with
-  | zero => intro h; exact (small 0 (by omega) h).elim
-  | succ n ih =>
+  | zero =>
     intro h
-    cases n with
-    | zero => exact (small 1 (by omega) h).elim
-    | succ m =>
-      simp only [bitLenFrom]
-      by_cases hb : v.testBit (m + 2) = true
-      · simp only [hb, if_true]
-        have h1 : 2 ^ (m + 2) ≤ v := Nat.ge_two_pow_of_testBit hb
-        have h2 : v < 2 ^ (m + 3) := Nat.lt_pow_two_of_testBit v (fun j hj => h j (by omega))
-        have h3 : m + 2 ≤ v.log2 := (Nat.le_log2 hv0).2 h1
-        have h4 : v.log2 < m + 3 := (Nat.log2_lt hv0).2 h2
-        omega
-      · simp only [hb]
-        apply ih
-        intro j hj
-        by_cases hj2 : j = m + 2
-        · subst hj2; simpa using hb
-        · exact h j (by omega)
+    have : v < 2 ^ 1 := Nat.lt_pow_two_of_testBit v (fun j hj => h j (by omega))
+    have hv1 : v = 1 := by omega
+    subst hv1
+    rfl
+  | succ m ih =>
+    intro h
+    simp only [bitLenFrom]
+    by_cases hb : v.testBit (m + 1) = true
+    · simp only [hb, if_true]
+      have h1 : 2 ^ (m + 1) ≤ v := Nat.ge_two_pow_of_testBit hb
+      have h2 : v < 2 ^ (m + 2) := Nat.lt_pow_two_of_testBit v (fun j hj => h j (by omega))
+      have h3 : m + 1 ≤ v.log2 := (Nat.le_log2 hv0).2 h1
+      have h4 : v.log2 < m + 2 := (Nat.log2_lt hv0).2 h2
+      omega
+    · simp only [hb]
+      apply ih
+      intro j hj
+      by_cases hj2 : j = m + 1
+      · subst hj2; simpa using hb
+      · exact h j (by omega)
 
-theorem bitLen_spec (v : Nat) (hv : v < 2 ^ 64) (h4 : 4 ≤ v) : bitLen v = natBitLen v := by
+theorem bitLen_spec (v : Nat) (hv : v < 2 ^ 64) (h1 : 1 ≤ v) : bitLen v = natBitLen v := by
   have hv0 : v ≠ 0 := by omega
   simp only [bitLen, natBitLen, hv0, if_false]
-  apply bitLenFrom_spec v h4
+  apply bitLenFrom_spec v h1
   intro j hj
   exact Nat.testBit_lt_two_pow (Nat.lt_of_lt_of_le hv (Nat.pow_le_pow_right (by omega) (by omega)))
 
-theorem bitLen_small (v : Nat) (hv : v < 4) : bitLen v = 1 := by
-  match v, hv with
-  | 0, _ => rfl
-  | 1, _ => rfl
-  | 2, _ => rfl
-  | 3, _ => rfl
+theorem bitLen_zero : bitLen 0 = 1 := by decide
+
+/-! ### Definitions of the code BEFORE the fix commits (kept only to state
+what was wrong; nothing in the model uses them) -/
+
+/-- `bitLen` before commit 485d3fb: `for i := 63; i > 1; i--` -/
+def bitLenFromOld (v : Nat) : Nat → Nat
+  | 0 => 1
+  | 1 => 1
+  | i + 2 => if v.testBit (i + 2) then i + 3 else bitLenFromOld v (i + 1)
+
+def bitLenOld (v : Nat) : Nat := bitLenFromOld v 63
+
+/-- the `TInt` branch of `mpc.Result` before commit 66e4e03
+(`result.Sub(tmp, result); result.Neg(result)` in place): returned value and
+content of the caller's `*big.Int` afterwards -/
+def resultIntOld (bits : Nat) (z : Int) : RVal × Int :=
+  let z' := if ibit z (bits - 1) then -((2 ^ bits : Nat) - z) else z
+  if widthClass bits = 0 then (.big z', z') else (.i (widthClass bits) (toIntW (widthClass bits) z'), z')
 
 theorem ival_ofNat (n : Nat) (hn : n < 2 ^ 64) : ival (n : Int) = n := by
   show n % 2 ^ 64 = n
@@ -639,7 +650,7 @@ theorem toIntW_fits (c : Nat) (hc : 1 ≤ c) (v : Int) (hlo : -((2 ^ (c - 1) : N
 theorem result_int_aux (t : Info) (ht : t.tag = .int) (hn : 1 ≤ t.bits) (v : Int)
     (hlo : -((2 ^ (t.bits - 1) : Nat) : Int) ≤ v) (hhi : v < ((2 ^ (t.bits - 1) : Nat) : Int)) :
     result t ((lowBits v t.bits : Nat) : Int) =
-      .ok (if t.bits ≤ 64 then .i (widthClass t.bits) v else .big v, v) := by
+      .ok (if t.bits ≤ 64 then .i (widthClass t.bits) v else .big v, ((lowBits v t.bits : Nat) : Int)) := by
   generalize hnn : t.bits = n at *
   have h2 := two_pow_pred hn
   have hn0 : n ≠ 0 := by omega
@@ -680,7 +691,7 @@ theorem result_int_aux (t : Info) (ht : t.tag = .int) (hn : 1 ≤ t.bits) (v : I
 theorem result_int (n a : Nat) (hn : 1 ≤ n) (v : Int) (hlo : -((2 ^ (n - 1) : Nat) : Int) ≤ v)
     (hhi : v < ((2 ^ (n - 1) : Nat) : Int)) :
     result (.base .int n a) ((lowBits v n : Nat) : Int) =
-      .ok (if n ≤ 64 then .i (widthClass n) v else .big v, v) :=
+      .ok (if n ≤ 64 then .i (widthClass n) v else .big v, ((lowBits v n : Nat) : Int)) :=
   result_int_aux (.base .int n a) rfl hn v hlo hhi
 
 theorem mapM_ok {α β : Type} (l : List α) (f : α → Except Err β) (g : α → β)
@@ -716,20 +727,16 @@ theorem result_bool (a : Nat) (b : Bool) :
     result (.base .bool 1 a) (if b then 1 else 0) = .ok (.bool b, if b then 1 else 0) := by
   cases b <;> rfl
 
-/-- Except for the `TInt` sign fix the cell is returned unchanged. -/
-theorem result_cell (t : Info) (z : Int) (rv : RVal) (c : Int) (h : result t z = .ok (rv, c))
-    (hp : t.tag ≠ .int ∨ ibit z (t.bits - 1) = false) : c = z := by
+/-- Whenever `Result` returns, the cell is unchanged (every type, every content). -/
+theorem result_cell (t : Info) (z : Int) (rv : RVal) (c : Int) (h : result t z = .ok (rv, c)) : c = z := by
   rw [result.eq_def] at h
   cases htag : t.tag <;> simp only [htag] at h
   all_goals try (simp at h; exact h.2.symm)
   all_goals try (split at h <;> (simp at h; exact h.2.symm))
   · -- int
-    rcases hp with hp | hp
-    · exact absurd htag hp
-    · split at h
-      · simp at h
-      · simp only [hp] at h
-        split at h <;> (simp at h; exact h.2.symm)
+    split at h
+    · simp at h
+    · split at h <;> (simp at h; exact h.2.symm)
   all_goals
     split at h
     · simp at h
@@ -826,5 +833,64 @@ theorem arg_set_compound (t : Info) (ms : List (Info × GoVal)) (hne : ms ≠ []
     simp only [Arg.set, List.map_cons, Arg.setAt, List.length_cons, List.length_map, ne_eq, not_true_eq_false, if_false]
     simp only [List.map_cons] at h1
     rw [h1]
+
+theorem totalBits_append (A B : List (Info × GoVal)) : totalBits (A ++ B) = totalBits A + totalBits B := by
+  induction A with
+  | nil => simp [totalBits]
+  | cons a A ih => obtain ⟨t, v⟩ := a; simp [totalBits, ih, Nat.add_assoc]
+
+theorem encMembers_append (A B : List (Info × GoVal)) (j : Nat) :
+    encMembers (A ++ B) j = if j < totalBits A then encMembers A j else encMembers B (j - totalBits A) := by
+  induction A generalizing j with
+  | nil => simp [totalBits]
+  | cons a A ih =>
+    obtain ⟨t, v⟩ := a
+    simp only [List.cons_append, encMembers, totalBits]
+    by_cases h : j < t.bits
+    · have : j < t.bits + totalBits A := by omega
+      simp [h, this]
+    · simp only [h, if_false, ih]
+      by_cases h2 : j - t.bits < totalBits A
+      · have : j < t.bits + totalBits A := by omega
+        simp [h2, this]
+      · have : ¬ j < t.bits + totalBits A := by omega
+        have e : j - t.bits - totalBits A = j - (t.bits + totalBits A) := by omega
+        simp [h2, this, e]
+
+/-- value of a `w`-bit pattern read as two's complement lies in the signed range and has the
+pattern as its low bits -/
+theorem toSigned_range (w g : Nat) (hw : 1 ≤ w) (hg : g < 2 ^ w) :
+    -((2 ^ (w - 1) : Nat) : Int) ≤ toSigned w g ∧ toSigned w g < ((2 ^ (w - 1) : Nat) : Int) ∧
+      lowBits (toSigned w g) w = g := by
+  have h2 := two_pow_pred hw
+  unfold toSigned
+  by_cases h : g < 2 ^ (w - 1)
+  · simp only [h, if_true]
+    refine ⟨by omega, by omega, ?_⟩
+    show g % 2 ^ w = g
+    exact Nat.mod_eq_of_lt hg
+  · simp only [h, if_false]
+    have hneg : ((g : Int) - ((2 ^ w : Nat) : Int)) = Int.negSucc (2 ^ w - g - 1) := by
+      rw [Int.negSucc_eq]; omega
+    refine ⟨by omega, by omega, ?_⟩
+    rw [hneg]
+    show 2 ^ w - 1 - (2 ^ w - g - 1) % 2 ^ w = g
+    have : (2 ^ w - g - 1) % 2 ^ w = 2 ^ w - g - 1 := Nat.mod_eq_of_lt (by omega)
+    rw [this]; omega
+
+theorem concat_eq_enc (ms : List (Info × StrFacts × Int × GoVal))
+    (hag : ∀ m, m ∈ ms → ∀ i, i < m.1.bits → ibit m.2.2.1 i = encLeaf m.1 m.2.2.2 i) :
+    ∀ j, j < totalBits (ms.map fun m => (m.1, m.2.2.2)) →
+      concatWires (ms.map fun m => (m.1.bits, m.2.2.1)) j = encMembers (ms.map fun m => (m.1, m.2.2.2)) j := by
+  induction ms with
+  | nil => intro j hj; simp [totalBits] at hj
+  | cons m ms ih =>
+    intro j hj
+    simp only [List.map_cons, concatWires, encMembers, totalBits] at *
+    by_cases h : j < m.1.bits
+    · simp only [h, if_true]
+      exact hag m (by simp) j h
+    · simp only [h, if_false]
+      exact ih (fun m' hm' => hag m' (by simp [hm'])) (j - m.1.bits) (by omega)
 
 end Mpc.IoArg
